@@ -148,12 +148,9 @@ theorem compute_ok (child : ChildExec) (d : Nat) (env : Env) (hc : d = 0 → Chi
           omega
         have hdz : d = 0 := by have := hv.depth; omega
         have hc := hc hdz
-        have hmk : ∀ i ∈ List.range breadth.toNat,
-            ((Stack.push stack (i : Int)).bind fun st =>
-              if vm.pc + 1 > usizeMax then (Res.panic "attempt to add with overflow" : Res Err Vm) else
-              .ok ({ pc := vm.pc + 1, stack := st, memory := [], parentMemory := vm.parentMemory ++ [vm.memory],
-                     halt := false, rep := vm.rep } : Vm)).wp (VmInv 1) := by
+        have hmk : ∀ i ∈ List.range breadth.toNat, (childVm vm stack i).wp (VmInv 1) := by
           intro i hi
+          unfold childVm
           rw [Res.wp_bind']
           have hi' : InI64 (i : Int) := by
             have := List.mem_range.mp hi
